@@ -1,6 +1,7 @@
 (* C16 - multiple interface files and the command-line scripts compose consistently (pybind part;
    the MATLAB concatenation lemma lives with the parser model). *)
 From Coq Require Import String Ascii List Bool Arith.
+From Wrap Require Parse.Peg Parse.Build Parse.Spec.
 From Wrap Require Import Base.Str Base.ListX Syntax.Ast Syntax.Print Inst.Model
      Pybind.Items Pybind.Gen Pybind.Render.
 Import ListNotations.
@@ -51,3 +52,22 @@ Example C16_script_top_examples :
   top_of_arg "" = [""] /\ top_of_arg "gtsam" = [""; "gtsam"] /\ top_of_arg "a::b::c" = [""; "a"; "b"; "c"]
   /\ top_of_arg "::gtsam" = [""; "gtsam"].
 Proof. vm_compute. repeat split; reflexivity. Qed.
+
+(* ---------------- MATLAB: a list of files ---------------- *)
+(* MatlabWrapper.wrap parses the files' texts joined into one.  Joined without a separator (the code as found), a
+   final // comment of one file takes the first line of the next with it; with a line break after every file (the
+   repaired code) the declarations of both files are parsed, whatever the first file ends in. *)
+Module M.
+Import Parse.Peg Parse.Build Parse.Spec.
+Definition file_a : string := "class A { A(); }; // end".
+Definition file_b : string := "class B { B(); };".
+Definition nl : string := String (Ascii.ascii_of_nat 10) EmptyString.
+Theorem C16_matlab_raw_concatenation_refuted :
+  exists ds, parse_module spec_grammar (file_a ++ file_b) = Ok ds /\ length ds = 1.
+Proof. eexists. split; vm_compute; reflexivity. Qed.
+Print Assumptions C16_matlab_raw_concatenation_refuted.
+Theorem C16_matlab_joined_with_line_breaks :
+  exists ds, parse_module spec_grammar (file_a ++ nl ++ file_b ++ nl) = Ok ds /\ length ds = 2.
+Proof. eexists. split; vm_compute; reflexivity. Qed.
+Print Assumptions C16_matlab_joined_with_line_breaks.
+End M.
